@@ -67,17 +67,20 @@ pub fn jstr<'a>(v: &'a Value, key: &str, default: &'a str) -> &'a str {
     v.get(key).and_then(|x| x.as_str()).unwrap_or(default)
 }
 
+/// Positions are logged as small integers; BIG - k (0 <= k < 1000) stands for usize::MAX - k.
 pub fn to_usize(i: i64) -> usize {
-    if i >= BIG {
-        usize::MAX
+    if i > BIG - 1000 {
+        usize::MAX - (BIG - i.min(BIG)) as usize
     } else {
         i as usize
     }
 }
 
 pub fn from_usize(i: usize) -> i64 {
-    if i as u128 >= BIG as u128 {
-        BIG
+    if i > usize::MAX - 1000 {
+        BIG - (usize::MAX - i) as i64
+    } else if i as u128 >= (BIG - 1000) as u128 {
+        BIG - 1000
     } else {
         i as i64
     }
